@@ -71,6 +71,11 @@ def run(ctx):
             for upd in (['del 15'], ['del 10'], ['del 20'], ['del 25', 'del 15']):
                 jobs.append((cfg, [trav, upd], 'prefix', 80, ctx['seed'], ()))
             jobs.append((cfg, [['ins 10', 'ins 15', 'ins 20', 'ins 25', 'itf 15', 'ite', 'itd', 'itn', 'itn'], ['del 15']], 'prefix', 80, ctx['seed'], ()))
+        # erase(iterator) on the LAST element of a bucket taking its slow path (another thread inserted right in front of the element, erased
+        # its predecessor or the element itself): the returned iterator must move on into the next non-empty bucket
+        for cfg in ({'c': 'map', 'buckets': '2', 'memo': '0', 'hash': 'mod2'}, {'c': 'map', 'buckets': '2', 'memo': '1', 'hash': 'mod2'}, {'c': 'map', 'buckets': '8', 'memo': '0'}):
+            for upd in (['ins 14'], ['del 10'], ['del 20'], ['ins 14', 'del 10']):
+                jobs.append((cfg, [['ins 10', 'ins 20', 'ins 15', 'ins 41', 'itb', 'itn', 'ite', 'itd', 'itn', 'itn', 'itn'], upd], 'prefix', 150, ctx['seed'], ()))
         # completeness across buckets: the element the iterator stands on is erased (it is the last of its bucket), later buckets hold
         # elements that stay for the whole traversal and must still be yielded
         for cfg in ({'c': 'map', 'buckets': '8', 'memo': '0'}, {'c': 'map', 'buckets': '2', 'memo': '1', 'hash': 'mod2'}, {'c': 'set'}):
